@@ -8,3 +8,12 @@ package common
 //@   props C17
 //@   trusted "wrapper over strings.EqualFold(queueName, RecoveryQueueFull): no effect"
 //@   pure
+
+// the force-create tag is found whatever the case of its key (the shim's spelling is not under the core's control):
+// a tag whose key equals the documented key up to case and whose value parses as true makes the application forced,
+// provided no second key of the same spelling up to case competes with it; nothing else does
+//@ func IsAppCreationForced(tags map[string]string) (forced bool)
+//@   props C12 C17 C13
+//@   loop 1: invariant tagVal == "" && (forall k string :: seen(k) ==> !foldeq(k, "application.create.force"))
+//@   ensures[fold] (exists k string :: (k in tags) && foldeq(k, "application.create.force") && isbool(tags[k]) && boolof(tags[k]) && (forall j string :: (j in tags) && foldeq(j, "application.create.force") ==> j == k)) ==> forced
+//@   ensures[only] forced ==> (exists k string :: (k in tags) && foldeq(k, "application.create.force") && isbool(tags[k]) && boolof(tags[k]))
